@@ -29,5 +29,28 @@ p = os.path.join(ROOT, "DESIGN.md")
 s = open(p).read()
 a, b = "<!-- BEGIN seeded table -->", "<!-- END seeded table -->"
 s = s[:s.index(a) + len(a)] + "\n" + "\n".join(rows) + "\n" + s[s.index(b):]
+# ---- section 6.6: per-property summary generated from the modules ---------------------------------------------
+import importlib, sys
+sys.path.insert(0, ROOT)
+kf = json.load(open(os.path.join(ROOT, "known_findings.json")))
+lines = []
+for i in range(1, 21):
+    pid = "C%02d" % i
+    m = importlib.import_module("vf.props." + pid)
+    req = dict(getattr(m, "REQUIRED_REACH", {}))
+    thor = dict(getattr(m, "REQUIRED_REACH_THOROUGH", {}))
+    nopen = sum(1 for f in kf["findings"] if f["property"] == pid and f.get("status") == "open")
+    nfix = sum(1 for f in kf["fixed"] if "property=%s " % pid in f)
+    lines.append("**%s** — %s" % (pid, getattr(m, "TECHNIQUE", "")))
+    lines.append("")
+    lines.append("* explored: %s" % re.sub(r"\s+", " ", getattr(m, "RULE", "")))
+    lines.append("* deciding monitors that must be reached (counter >= minimum; otherwise INCONCLUSIVE): %s%s" % (
+        ", ".join("`%s`>=%d" % kv for kv in req.items()), ("; thorough also: " + ", ".join("`%s`>=%d" % kv for kv in thor.items())) if thor else ""))
+    lines.append("* assumptions: %s" % "; ".join(getattr(m, "ASSUMPTIONS", [])))
+    lines.append("* recorded findings open: %d, repaired defects: %d" % (nopen, nfix))
+    lines.append("")
+a2, b2 = "<!-- BEGIN checks summary -->", "<!-- END checks summary -->"
+if a2 in s:
+    s = s[:s.index(a2) + len(a2)] + "\n" + "\n".join(lines) + "\n" + s[s.index(b2):]
 open(p, "w").write(s)
 print(n_total, n_first)
